@@ -66,3 +66,10 @@ LEVEL_TEXT["C02"] = ("Exploration: every case starts a real engine with small se
                      "(including gated producers that build backlogs beyond the 1024-request threshold) against a peer with a generated reading schedule (stalls, trickle reads, 'wait until OutboundBuffered >= x'); "
                      "oracle: received stream = accepted records in effect order, per-producer issue order of async writes, OutboundBuffered bounds inside every callback and 0 after the drain, stall rule for 'accepted data is eventually sent'.")
 LEVEL_NOTE["C02"] = "Real loop-back sockets; OutboundBuffered is bounded from above by accepted minus bytes already received by the peer (exact equality needs the kernel-side count, which the real-socket harness cannot see); liveness is bounded (8 s, confirmed by re-running the case)."
+
+LEVEL_TEXT["C04"] = ("Exploration: generated connection histories (every close cause, closes requested from inside OnOpen/OnTraffic, 2..3 causes fired concurrently, engine shutdown with open connections, a second wave of connections that re-uses the freed descriptor numbers, stale Wake/Close/AsyncWrite on closed connections) "
+                     "run against a real engine in every configuration; the recorded callback log is judged by the automaton Open (Traffic)* Close with identity/loop/goroutine checks, the OnClose-error rule, net.ErrClosed for stale async writes, silence on bystander connections and CountConnections at quiescent points.")
+LEVEL_NOTE["C04"] = "Racing causes are real-scheduler races (many repeats, not enumerated); connected client UDP sockets are exercised by the C08 harness; liveness clauses use the 8 s stall rule."
+LEVEL_TEXT["C07"] = ("Exploration: the C04 history generator plus Conn.Dup/Engine.Dup, one engine start/stop per case, judged by three oracles that do not depend on callbacks: the process descriptor table before vs after, canary socket pairs that occupy a descriptor number right after the framework released it "
+                     "(so any later read/write/close through the stale number is visible), and user-owned duplicates that must survive. A second generator stops the engine under a connect flood.")
+LEVEL_NOTE["C07"] = "Known finding listed in known_findings.txt (accepted sockets handed to an exited sub-reactor leak at shutdown; excluded by classification and counted). A ledger of every system call (shim) is not part of this check; canaries see only descriptor numbers that were re-occupied in time."
